@@ -8,7 +8,7 @@
 (*                        (layer A sanity) + layer C against layer A        *)
 (*   MC_Space_export.cfg  writes every case with the layer-A expectations   *)
 (*                        as one JSON line (replayed on real ODL spaces)    *)
-(* Environment: SP_GROUP tensor|tensor2|custom|discr1|discr2|pspace, SP_FLD,*)
+(* Environment: SP_GROUP tensor|tensor2|small|custom|discr1|discr2|pspace   *)
 (*   SP_NV_<GROUP> vectors per space, SP_BIG 0|1 (larger universes),      *)
 (*   SP_ALL 1 = all vectors over the alphabet (small leaves only).          *)
 (***************************************************************************)
@@ -22,13 +22,14 @@ StrNat(str) == CHOOSE n \in 1..64 : ToString(n) = str
 \* vectors per space, by group: SP_NV = "tensor,custom,discr1,discr2,pspace" counts, e.g. "6,6,4,3,4"
 NVTab == [tensor |-> StrNat(IOEnv.SP_NV_TENSOR), custom |-> StrNat(IOEnv.SP_NV_CUSTOM),
           discr1 |-> StrNat(IOEnv.SP_NV_DISCR1), discr2 |-> StrNat(IOEnv.SP_NV_DISCR2),
-          pspace |-> StrNat(IOEnv.SP_NV_PSPACE)]
+          pspace |-> StrNat(IOEnv.SP_NV_PSPACE), small |-> StrNat(IOEnv.SP_NV_SMALL)]
 
 R(n)     == CInt(n)
 RQ(n, d) == CR(Q(n, d))
 Z(a, b)  == <<QI(a), QI(b)>>
 
 GroupOf(s) == IF s.kind = "pspace" THEN "pspace"
+              ELSE IF s.kind = "tensor" /\ s.n <= 1 THEN "small"
               ELSE IF s.kind = "discr" THEN (IF Len(s.axes) = 1 THEN "discr1" ELSE "discr2")
               ELSE IF s.w.k = "custom" THEN "custom" ELSE "tensor"
 NVOf(s) == NVTab[GroupOf(s)]
@@ -60,6 +61,9 @@ TensorWs(n) == {WNone, WConst(QI(2)), WConst(Q(1, 2)),
                 WArr(IF n = 2 THEN <<QI(2), Q(1, 2)>> ELSE <<Q(1, 2), QI(3), QI(1)>>)}
 TensorU == { Tensor(fld, n, p, w) : fld \in Flds, n \in {3}, p \in Exps, w \in TensorWs(3) }
            \cup { Tensor(fld, n, p, w) : fld \in Flds, n \in {2}, p \in Exps, w \in TensorWs(2) }
+\* one-entry and zero-size spaces
+SmallU == { Tensor(fld, 1, p, w) : fld \in Flds, p \in Exps, w \in {WNone, WConst(QI(2)), WArr(<<QI(3)>>)} }
+          \cup { Tensor(fld, 0, p, w) : fld \in Flds, p \in Exps, w \in {WNone, WConst(QI(2)), WArr(<<>>)} }
 CustomU == { Tensor(fld, 3, 2, WCustom(t)) : fld \in Flds, t \in {"inner:iw", "norm:l1x2", "dist:l1"} }
 
 \* an axis given by its node count, left end, cell side h and the nodes-on-boundary flags:
@@ -97,13 +101,17 @@ PSpaceU ==
      \* mixed exponents (product exponent p over components with exponent q)
 \cup { PSpace(<<T2(fld, q, WNone), T2(fld, q, WConst(QI(2)))>>, p, w) :
          fld \in Flds, p \in Exps, q \in Exps, w \in {WNone, WArr(<<QI(2), Q(1, 2)>>)} }
+     \* components with DIFFERENT exponents and weightings
+\cup { PSpace(<<T2(fld, q1, WConst(QI(2))), T3(fld, q2, WArr(<<Q(1, 2), QI(3), QI(1)>>))>>, p, w) :
+         fld \in Flds, p \in Exps, q1 \in {1, 2}, q2 \in {2, PInf}, w \in {WNone, WConst(QI(3))} }
      \* discretised components (vector fields), nodes on the boundary, cell volume 1/2 and 1
 \cup { PSpace(<<D3(fld, p, f[1], f[2], h), D3(fld, p, f[1], f[2], h)>>, p, w) :
          fld \in Flds, p \in {2, 1}, f \in {<<0, 0>>, <<1, 0>>, <<1, 1>>}, h \in {Q(1, 2), QI(1)}, w \in {WNone, WConst(QI(3))} }
 
 Universe ==
-  CASE Group = "all" -> TensorU \cup CustomU \cup Discr1U \cup Discr2U \cup PSpaceU
+  CASE Group = "all" -> TensorU \cup SmallU \cup CustomU \cup Discr1U \cup Discr2U \cup PSpaceU
     [] Group = "tensor" -> TensorU
+    [] Group = "small" -> SmallU
     [] Group = "tensor2" -> { s \in TensorU : s.n = 2 }
     [] Group = "custom" -> CustomU
     [] Group = "discr1" -> Discr1U
@@ -195,12 +203,10 @@ ImplAgreesHere ==
   /\ (DOk(X, Y) => ImplDistPowW(iwt, spc, X, Y) = DP(X, Y))
 \* the model agrees with the reference everywhere except in the named cells ...
 B_ImplRefines == KnownCell(spc) \/ ImplAgreesHere
-\* ... and in a named cell the constant function one really is mis-measured / the norm really raises
+\* ... and in a named cell the norm of the constant function one really raises
 KnownCellsAreReal ==
-  KnownCell(spc) =>
-     \/ (HasNoInnerUnderP2(spc) /\ ImplNormPowW(iwt, spc, TOne(spc)) = Raise)
-     \/ (HasUnitVolumeBdry(spc) /\ ImplNormPowW(iwt, spc, TOne(spc)) # N(TOne(spc)))
-
+  /\ HasNoInnerUnderP2(spc) => ImplNormPowW(iwt, spc, TOne(spc)) = Raise
+  /\ (IsLeaf(spc) /\ spc.n = 0 /\ spc.w.k # "array" /\ spc.p = 2) => ImplNormPowW(iwt, spc, TOne(spc)) = Raise
 
 \* the laws apply to case states (level 2) only
 AxConjSym == i = 0 \/ B_AxConjSym
